@@ -137,6 +137,8 @@ func init() {
 				res.Add(Finding{Kind: "property", Check: "tls-matrix", Line: c.line, Impl: c.impl, Expect: outs[i], Note: note})
 			}
 		}
+		crossServerResumption(res)
+		clientChainDoesNotWidenTrust(res)
 		// constructors refuse tcp+tls without credentials
 		some, _ := mint(certSpec{cn: "x", parent: ca})
 		for _, cfg := range []struct {
@@ -263,4 +265,127 @@ func clientCell(p *pki, ver int, cred string) (bool, string) {
 	}
 	n := <-got
 	return n >= 12, detail
+}
+
+// crossServerResumption: two tcp+tls servers in one process trusting different client CAs. A peer
+// with a certificate of CA-A completes an exchange with server A (collecting session tickets) and
+// then offers them to server B, which trusts CA-B only: B must not serve it.
+func crossServerResumption(res *Result) {
+	caA, errA := mint(certSpec{cn: "ca-a", isCA: true})
+	caB, errB := mint(certSpec{cn: "ca-b", isCA: true})
+	if errA != nil || errB != nil {
+		return
+	}
+	ip := []net.IP{net.IPv4(127, 0, 0, 1)}
+	srvCert, _ := mint(certSpec{cn: "server", parent: caA, ips: ip, extKeyUse: []x509.ExtKeyUsage{x509.ExtKeyUsageServerAuth}})
+	cliA, _ := mint(certSpec{cn: "client-a", parent: caA, extKeyUse: []x509.ExtKeyUsage{x509.ExtKeyUsageClientAuth}})
+	hA, hB := &countingHandler{}, &countingHandler{}
+	sA, e1 := modbus.NewServer(&modbus.ServerConfiguration{URL: "tcp+tls://127.0.0.1:0", Timeout: time.Second, TLSServerCert: srvCert.tlsCert(), TLSClientCAs: poolOf(caA), Logger: quietLog}, hA)
+	sB, e2 := modbus.NewServer(&modbus.ServerConfiguration{URL: "tcp+tls://127.0.0.1:0", Timeout: time.Second, TLSServerCert: srvCert.tlsCert(), TLSClientCAs: poolOf(caB), Logger: quietLog}, hB)
+	if e1 != nil || e2 != nil || sA.Start() != nil || sB.Start() != nil {
+		return
+	}
+	defer sA.Stop()
+	defer sB.Stop()
+	for _, ver := range []int{12, 13} {
+		cache := tls.NewLRUClientSessionCache(8)
+		dial := func(addr string) string {
+			raw, err := net.DialTimeout("tcp", addr, time.Second)
+			if err != nil {
+				return "dial: " + err.Error()
+			}
+			defer raw.Close()
+			raw.SetDeadline(time.Now().Add(1500 * time.Millisecond))
+			// one ServerName for both, so that the client offers the cached session
+			tc := tls.Client(raw, &tls.Config{RootCAs: poolOf(caA), ServerName: "127.0.0.1", MinVersion: tlsVersions[ver], MaxVersion: tlsVersions[ver],
+				Certificates: []tls.Certificate{*cliA.tlsCert()}, ClientSessionCache: cache})
+			if err := tc.Handshake(); err != nil {
+				return "handshake: " + err.Error()
+			}
+			tc.Write(req03)
+			buf := make([]byte, 64)
+			if _, err := io.ReadAtLeast(tc, buf, 9); err != nil {
+				return "read: " + err.Error()
+			}
+			return "served"
+		}
+		a := dial(sA.VerifListenAddr().String())
+		before := atomic.LoadInt32(&hB.calls)
+		b := dial(sB.VerifListenAddr().String())
+		time.Sleep(5 * time.Millisecond)
+		line := fmt.Sprintf("TLS 1.%d: peer with a CA-A certificate visits server A (trusts CA-A), then offers the session to server B (trusts CA-B only)", ver-10)
+		res.Eval(fmt.Sprintf("resumption/%d", ver), true, line+" => A: "+a+"; B: "+b)
+		if a != "served" {
+			res.Note("cross-server resumption: the visit to server A failed: " + a)
+		}
+		if b == "served" || atomic.LoadInt32(&hB.calls) > before {
+			res.Add(Finding{Kind: "property", Check: "tls-matrix-server", Line: line, Impl: "server B served the peer (" + b + ")", Expect: "refused: the certificate does not verify against B's client CAs",
+				Note: "a handler was invoked for a peer whose certificate does not verify against the configured client CAs"})
+		}
+	}
+}
+
+// clientChainDoesNotWidenTrust: the client's own key pair is configured as a chain (leaf + its
+// issuing CA X); X is not among the configured roots; the dialled server holds a certificate
+// issued by X. The client must refuse it.
+func clientChainDoesNotWidenTrust(res *Result) {
+	root, e1 := mint(certSpec{cn: "root", isCA: true})
+	caX, e2 := mint(certSpec{cn: "ca-x", isCA: true})
+	if e1 != nil || e2 != nil {
+		return
+	}
+	ip := []net.IP{net.IPv4(127, 0, 0, 1)}
+	srvX, _ := mint(certSpec{cn: "server-x", parent: caX, ips: ip, extKeyUse: []x509.ExtKeyUsage{x509.ExtKeyUsageServerAuth}})
+	cliX, _ := mint(certSpec{cn: "client-x", parent: caX, extKeyUse: []x509.ExtKeyUsage{x509.ExtKeyUsageClientAuth}})
+	for _, shape := range []string{"leaf-only", "leaf+issuing-ca"} {
+		ln, err := net.Listen("tcp", "127.0.0.1:0")
+		if err != nil {
+			return
+		}
+		got := make(chan int, 1)
+		go func() {
+			c, err := ln.Accept()
+			if err != nil {
+				got <- 0
+				return
+			}
+			defer c.Close()
+			c.SetDeadline(time.Now().Add(1500 * time.Millisecond))
+			tc := tls.Server(c, &tls.Config{Certificates: []tls.Certificate{*srvX.tlsCert()}, ClientAuth: tls.RequestClientCert, MinVersion: tls.VersionTLS12})
+			if err := tc.Handshake(); err != nil {
+				got <- 0
+				return
+			}
+			buf := make([]byte, 64)
+			n, _ := io.ReadAtLeast(tc, buf, 12)
+			got <- n
+		}()
+		cert := cliX.tlsCert()
+		if shape == "leaf+issuing-ca" {
+			cert.Certificate = append(cert.Certificate, caX.der)
+		}
+		mc, err := modbus.NewClient(&modbus.ClientConfiguration{URL: "tcp+tls://" + ln.Addr().String(), Timeout: 700 * time.Millisecond, TLSClientCert: cert, TLSRootCAs: poolOf(root), Logger: quietLog})
+		out := ""
+		if err != nil {
+			out = "newclient: " + err.Error()
+		} else if err := mc.Open(); err != nil {
+			out = "open refused"
+		} else {
+			mc.ReadRegister(0, modbus.HOLDING_REGISTER)
+			mc.Close()
+			out = "opened"
+		}
+		n := 0
+		select {
+		case n = <-got:
+		case <-time.After(2 * time.Second):
+		}
+		ln.Close()
+		line := "client key pair given as " + shape + " (issued by CA-X), roots = {root}; server certificate issued by CA-X"
+		res.Eval("client-chain/"+shape, true, line+" => "+out)
+		if n >= 12 || out == "opened" {
+			res.Add(Finding{Kind: "property", Check: "tls-matrix-client", Line: line, Impl: fmt.Sprintf("%s; %d request bytes reached the server", out, n), Expect: "Open() refused, no request sent",
+				Note: "the client sent a request to a server whose certificate does not verify against the configured roots"})
+		}
+	}
 }
